@@ -165,7 +165,7 @@ func main() {
 	wit.EnsureMetrics(nil)
 	run := ev.Start("C14", "exploration")
 	defer run.Finish()
-	run.Rule(fmt.Sprintf("unit = one omniwitness.Main service started from a generated configuration of 2-4 stub logs (one SumDB-layout log and tlog-tiles logs, served from generated trees through an in-memory transport) with polling on; each log follows its own growth schedule (size 1, repeated sizes, 255/256/257 and, thorough, 65535/65536/65537); after every publication the served GET checkpoint must equal the published text with valid log and witness signatures before the stub has answered %d further checkpoint fetches (bounded progress in logical steps; a 90 s wall-clock watchdog is inconclusive); services on SQLite files are restarted between steps (served checkpoint text identical and validly cosigned across the restart); finally a log switches to a history that does not extend the witnessed one and the served checkpoint must stay on the witnessed text for the next 6 poll cycles. evaluations = growth steps + restarts + fork observations judged; nontrivial = distinct (feeder type, storage, size class, event)", K+1))
+	run.Rule(fmt.Sprintf("unit = one omniwitness.Main service started from a generated configuration of 2-4 stub logs (one SumDB-layout log and tlog-tiles logs, served from generated trees through an in-memory transport) with polling on; each log follows its own growth schedule (size 1, repeated sizes, 255/256/257 and, thorough, 65535/65536/65537); after every publication the served GET checkpoint must equal the published text with valid log and witness signatures before the stub has answered %d further checkpoint fetches (bounded progress in logical steps; a 90 s wall-clock watchdog is inconclusive); services on SQLite files are restarted between steps (served checkpoint text identical and validly cosigned across the restart); finally a log switches to a history that does not extend the witnessed one (a larger fork, the same size with another root, a smaller fork, or a rollback on the same history) and the served checkpoint must stay on the witnessed text for the next 6 poll cycles. evaluations = growth steps + restarts + fork observations judged; nontrivial = distinct (feeder type, storage, size class, event)", K+1))
 	run.Assume("feeders poll sequentially per log: when fetch K+1 after a publication has been answered, K full feed cycles have completed", "size-0 first checkpoints are avoided (known finding F2)", "Rekor, Pixel and serverless feeders are not served from generated trees (C17/C19 cover their start-up and hostile responses)")
 	run.Floor("growth_steps", 60)
 	run.Floor("restarts", 2)
@@ -377,13 +377,31 @@ func oneService(run *ev.Run, unit int64, r *rand.Rand, dir string) {
 		_, witnessed := l.stub.Checkpoint()
 		forkAt := l.size / 2
 		l.fork = &reftree.Tree{Seed: l.tree.Seed, TagA: 1, TagB: 2, Fork: forkAt}
-		l.stub.Publish(l.fork, l.size+uint64(r.IntN(50)))
+		variant := []string{"larger_fork", "same_size_other_root", "smaller_fork", "rollback_same_history"}[int(unit+int64(r.IntN(2)))%4]
+		switch variant {
+		case "larger_fork":
+			l.stub.Publish(l.fork, l.size+1+uint64(r.IntN(50)))
+		case "same_size_other_root":
+			l.stub.Publish(l.fork, l.size)
+		case "smaller_fork":
+			l.stub.Publish(l.fork, forkAt+1+uint64(r.IntN(int(l.size-forkAt-1))))
+		case "rollback_same_history":
+			l.stub.Publish(nil, 1+uint64(r.IntN(int(l.size-1))))
+		}
+		run.Count("fork_variant:" + variant)
 		base := l.stub.Fetches()
 		deadline := time.Now().Add(90 * time.Second)
 		for l.stub.Fetches()-base < 7 {
+			select {
+			case err := <-s.done:
+				s.done <- err
+				fail("service_exited_on_fork;"+variant, fmt.Sprintf("%s started serving a history that does not extend the witnessed one (%s): omniwitness.Main returned %v", l.host, variant, err), map[string]any{"witnessed": witnessed})
+				return
+			default:
+			}
 			code, raw := s.served(l.id)
 			if code != 200 || !s.matches(l, raw, witnessed) {
-				fail(fmt.Sprintf("left_witnessed_history;feeder_sumdb=%v", l.stub.SumDB), fmt.Sprintf("%s switched to a fork at leaf %d; the service now serves status %d / a checkpoint that is not the witnessed one", l.host, forkAt, code), map[string]any{"served": string(raw), "witnessed": witnessed})
+				fail(fmt.Sprintf("left_witnessed_history;feeder_sumdb=%v;%s", l.stub.SumDB, variant), fmt.Sprintf("%s switched to a fork at leaf %d; the service now serves status %d / a checkpoint that is not the witnessed one", l.host, forkAt, code), map[string]any{"served": string(raw), "witnessed": witnessed})
 				break
 			}
 			if time.Now().After(deadline) {
@@ -398,7 +416,7 @@ func oneService(run *ev.Run, unit int64, r *rand.Rand, dir string) {
 		if l.stub.SumDB {
 			ft = "sumdb"
 		}
-		run.Distinct("nontrivial", "fork/"+ft+"/"+storage)
+		run.Distinct("nontrivial", "fork/"+ft+"/"+storage+"/"+variant)
 		trace = append(trace, fmt.Sprintf("fork on %s at %d: served checkpoint stayed on the witnessed text for %d polls", l.host, forkAt, l.stub.Fetches()-base))
 		// the other logs must still make progress
 		for _, o := range s.logs {
